@@ -162,6 +162,23 @@ InSiblingOverlap(f, p) ==
     /\ Cardinality({i \in Roots(f) : Contains(f[i], p, 0)}) = 1
     /\ ~OnUpperBorder(f, p)
 
+\* Two siblings that share an edge (a properly tiled parent): a point on that edge lies in both (closed
+\* extents); it is the upper border of one of them and the lower border of its neighbour.  Whichever
+\* reading of the border rule is taken (NTv2: the upper border belongs to the neighbour; this library's
+\* documentation: on the border is inside), one of the TWO SIBLINGS serves the point - never their
+\* parent, which is not the deepest sub-grid containing it.  Only points where nothing else interferes:
+\* one root, exactly two siblings, exactly one of them has the point on its upper border and no other
+\* sub-grid containing the point has, and neither sibling has a child containing it.
+UpperOf(f, p) == {j \in 1..Len(f) : Contains(f[j], p, 0) /\ (p.x = East(f[j]) \/ p.y = f[j].n)}
+OnSharedEdge(f, p) ==
+    /\ Cardinality({i \in Roots(f) : Contains(f[i], p, 0)}) = 1
+    /\ \E i \in 1..Len(f) :
+          LET C == {j \in Children(f, i) : Contains(f[j], p, 0)} IN
+          /\ ChainOK(f, i, p) /\ Cardinality(C) = 2
+          /\ UpperOf(f, p) \subseteq C /\ Cardinality(UpperOf(f, p)) = 1
+          /\ \A j \in C : \A k \in Children(f, j) : ~Contains(f[k], p, 0)
+          /\ ChainEnds(f, p) = C
+
 \* ---- spellings of a header ---------------------------------------------------
 \* A header names the extent by four bounds.  Written in ascending order ("asc") there is one reading.
 \* With the bounds of an axis exchanged ("ns": the slot of the southern bound holds the larger latitude;
